@@ -1298,9 +1298,9 @@ func (rl *Shell) doLowercaseVersion() {
 	// Feed back the keys with meta prefix or encoding
 	if escapePrefix {
 		input := append([]rune{inputrc.Esc}, keys...)
-		rl.Keys.Feed(false, input...)
+		rl.Keys.Feed(true, input...)
 	} else {
-		rl.Keys.Feed(false, inputrc.Enmeta(keys[0]))
+		rl.Keys.Feed(true, inputrc.Enmeta(keys[0]))
 	}
 }
 
